@@ -109,6 +109,20 @@ class Prop(common.PropertyCheck):
                     vals = [[2 * rng.randrange(0, 32) + (1 - vi), rng.randrange(0, 64) | (1 << (len(spec['names']) - 1))] for _ in ops]
                     for how in DUPS:
                         yield {'k': 'dup', 'spec': spec, 'ops': ops, 'vals': vals, 'how': how}
+        # samples loaded from an open file object: copies and views in every analysis state (an open file cannot be pickled; not tried)
+        for si in range(self.budget(2, 10)):
+            spec = samples.spec_rich(rng, N=rng.randrange(3, 12), datatype=['I', 'F'][si % 2])
+            for ops in ([], ['slice_ch'], ['to_rfi', 'gate'], ['slice_ev', 'to_mef'], ['reads', 'column']):
+                vals = [[rng.randrange(0, 64), rng.randrange(0, 64)] for _ in ops]
+                for how in ('copy', 'copy.copy', 'deepcopy', 'view'):
+                    yield {'k': 'dup', 'spec': spec, 'ops': ops, 'vals': vals, 'how': how, 'fileobj': True}
+        # files that differ in one keyword value of the ANALYSIS segment only (located by the HEADER, or by $BEGINANALYSIS / $ENDANALYSIS alone)
+        for i in range(self.budget(8, 40)):
+            sp = fcsgen.gen_spec(rng, max_events=5, max_par=3)
+            sp.update({'version': ['FCS3.0', 'FCS3.1'][i % 2], 'analysis': [['GATE1', 'v1'], ['GATE2', 'v1x']], 'analysis_placement': ['text', 'header'][(i // 2) % 2],
+                       'text_offsets_too': (i // 4) % 2 == 0, 'order': 'TDA'})
+            sp.pop('stext', None); sp.pop('malformed', None)
+            yield {'k': 'fileeq', 'spec': sp, 'flip': 'analysis', 'pos': i}
         # files holding more than 1 MiB of events that differ in one byte of one event: near the end, in the middle, at the very beginning
         for i, frac in enumerate([1.0, 0.999, 0.75, 0.5, 0.0, 0.97][:self.budget(4, 6)]):
             yield {'k': 'fileeq', 'flip': 'event', 'big': {'n': [45000, 70001][i % 2], 'D': [8, 6][i % 2], 'dt': ['F', 'I'][i % 2], 'seed': 9100 + i}, 'pos_frac': frac}
@@ -138,6 +152,12 @@ class Prop(common.PropertyCheck):
             head, tail = os.path.split(path)
             odd = [os.path.join(head, '.', tail), head + os.sep + os.sep + tail, os.path.join(head, os.path.basename(head), '..', tail) if False else os.path.join(head, '.', '.', tail)][case['oddpath'] % 3]
             d = FlowCal.io.FCSData(odd)
+        if case.get('fileobj'):
+            # the sample is loaded from an open file object instead of a file name
+            self._open_files = getattr(self, '_open_files', [])
+            fh = open(path, 'rb')
+            self._open_files.append(fh)
+            d = FlowCal.io.FCSData(fh)
         for op, v in zip(case['ops'], case['vals']):
             d = apply_op(d, op, v)
         return d
@@ -250,6 +270,13 @@ class Prop(common.PropertyCheck):
                 if j > 0:
                     d2[tb + j] = ord('Q')
                     flipped = True
+            elif case['flip'] == 'analysis' and 'A' in layout['segs']:
+                # one character of a value of the ANALYSIS segment (same length)
+                ab, ae = layout['segs']['A']
+                j = bytes(d2[ab:ae + 1]).find(b'v1')
+                if j > 0:
+                    d2[ab + j] = ord('w')
+                    flipped = True
             elif case['flip'] == 'kwcase':
                 # the same keyword name in another letter case is another keyword
                 tb, te = layout['segs']['T']
@@ -275,6 +302,11 @@ class Prop(common.PropertyCheck):
             os.unlink(path)
 
     def post(self):
+        for fh in getattr(self, '_open_files', []):
+            try:
+                fh.close()
+            except Exception:
+                pass
         fcsgen.cleanup()
 
     def oracle(self, case, impl):
